@@ -46,6 +46,7 @@ def instances(tier):
     for c in CALLS:
         out.append({"kind": "request", "call": c})
     out.append({"kind": "handshake_extra"})
+    out.append({"kind": "zone_order"})
     return out
 
 
@@ -319,9 +320,38 @@ def _handshake_extra(ctx, p):
         ctx.reach(lab)
 
 
+def _zone_order(ctx, p):
+    """The same contiguous block of zones (solver-chosen start and count) belongs to the AC on both consoles: the AC exposes the
+    same sequence of zones (and the AirTouch the same sequence of air-conditioners) over both generations."""
+    start = ctx.choice("start", 14)
+    count = 2 + ctx.choice("count", 2)
+    seqs = {}
+    for gen in (4, 5):
+        g = Gen(gen)
+        inst = Installation(gen)
+        nums = list(range(start, start + count))
+        inst.acs.append({"number": 0, "name": "Unit", "start": start, "count": count, "mode_bits": 0b11111, "fan_bits": 0b1111111,
+                         "limits": (16, 30) if gen == 4 else (16, 30, 16, 30), "group_bits": sum(1 << n for n in nums) if gen == 4 else None})
+        for n in nums:
+            inst.zones[n] = f"Z{n}"
+            inst.zone_status[n] = (r4.build_group_status(n, 1, 1, 100, 0, 1, 22, 1, 730, 0) if gen == 4 else r5.build_zone_status(n, 1, 1, 100, 120, 1, 730, 0, 0))
+        inst.ac_status[0] = (r4.build_ac_status(0, 1, 4, 2, 0, 0, 22, 740, 0) if gen == 4 else r5.build_ac_status(0, 1, 4, 2, 120, 0, 0, 0, 0, 740, 0))
+        inst.timers[0] = (1, 0, 0, 1, 0, 0)
+        with ApiRig(ctx, g, inst) as rig:
+            rig.start()
+            rig.run(1.0)
+            ctx.check(rig.init_result is True, "equal_getters", detail=f"AT{gen} handshake failed")
+            seqs[gen] = [[z.zone_id for z in a.zones] for a in rig.at.air_conditioners]
+    ctx.check(seqs[4] == seqs[5], "equal_getters", detail={"attribute": "air_conditioners[].zones (sequence)", "start": start, "count": count, "at4": seqs[4], "at5": seqs[5]})
+    for lab in expect_labels("quick"):
+        ctx.reach(lab)
+
+
 def run(ctx, p):
     A = importlib.import_module("pyairtouch.api")
     kind = p["kind"]
+    if kind == "zone_order":
+        return _zone_order(ctx, p)
     if kind == "error_history":
         return _error_history(ctx, p)
     if kind == "handshake_extra":
